@@ -26,6 +26,7 @@ import (
 
 const (
 	VMod        = "vmod"   // the emulated consumer module
+	VModHalf    = "vhalf"  // a module that registered a response callback only: it cannot own contexts
 	ModSvcMod   = "vsvc"   // the emulated module owning a module service
 	ModSvcName  = "modsvc" // the reserved service name
 	StartTimeNs = int64(1600000000) * 1e9
@@ -45,6 +46,9 @@ type Config struct {
 	// Reactive: the emulated consumer module reacts to the "cannot pay" notification by killing its
 	// (repeated) context from inside the state callback, as a real host module may do
 	Reactive bool `json:"reactive_module,omitempty"`
+	// StartHeight: height of the first block of the history (0 = 1). Heights appear big-endian in queue
+	// keys and request ids: histories also start just below a byte boundary (250, 65530, 2^32-6)
+	StartHeight int64 `json:"start_height,omitempty"`
 	// ReactResp: the emulated consumer module reacts to a batch's responses by killing ("kill") or
 	// pausing ("pause") its (repeated, running) context from inside the response callback - "enough
 	// values collected" - through the keeper API, as a host module may do
@@ -194,7 +198,11 @@ func NewWorld(cfg Config) *World {
 	cctx, _ := base.CacheContext()
 	w := &World{app: app, cfg: cfg}
 	w.bootProcess()
-	w.ctx = cctx.WithBlockHeight(1).WithBlockTime(time.Unix(0, StartTimeNs).UTC())
+	h0 := int64(1)
+	if cfg.StartHeight > 0 {
+		h0 = cfg.StartHeight
+	}
+	w.ctx = cctx.WithBlockHeight(h0).WithBlockTime(time.Unix(0, StartTimeNs).UTC())
 	w.DepositAcc = hx(app.AccountKeeper.GetModuleAddress(types.DepositAccName))
 	w.RequestAcc = hx(app.AccountKeeper.GetModuleAddress(types.RequestAccName))
 	w.FeeCollector = hx(app.AccountKeeper.GetModuleAddress(authtypes.FeeCollectorName))
@@ -260,6 +268,9 @@ func (w *World) bootProcess() {
 		panic(err)
 	}
 	if err := w.k.RegisterStateCallback(VMod, w.stateCallback); err != nil {
+		panic(err)
+	}
+	if err := w.k.RegisterResponseCallback(VModHalf, w.respCallback); err != nil {
 		panic(err)
 	}
 
@@ -642,7 +653,7 @@ func (w *World) modCall(ctx sdk.Context, m Action, rec *StepRec) error {
 			st = types.PAUSED
 		}
 		id, err := w.k.CreateRequestContext(ctx, m.Service, addrs(m.Providers), addr(m.Signer), m.Input, m.capOf(),
-			m.Timeout, m.Super, m.Repeated, m.Freq, m.Total, st, m.Threshold, VMod)
+			m.Timeout, m.Super, m.Repeated, m.Freq, m.Total, st, m.Threshold, m.moduleName())
 		if err == nil {
 			rec.CtxIDs = append(rec.CtxIDs, hx(id))
 		}
